@@ -59,7 +59,7 @@ theorem roles_complementary_any_offer (offer : List (List Attr)) (v : String) (n
     (hv : firstSetup offer = some v) :
     exchangeForeignOffer ⟨.webrtc, none⟩ ⟨.webrtc, none⟩ offer n =
       (⟨.webrtc, some (!isClientOfRemoteSetup v)⟩, ⟨.webrtc, some (isClientOfRemoteSetup v)⟩) := by
-  simp [exchangeForeignOffer, Ep.setRemote, roleAfterRemote, hv, firstSetup_localDesc _ _ n hn,
+  simp [exchangeForeignOffer, Ep.setRemote, roleAfterRemote, roleAfterRemoteFull, hv, firstSetup_localDesc _ _ n hn,
     isClient_of_answer_setup]
 
 example : firstSetup [[⟨"mid", some "0"⟩, ⟨"setup", none⟩], [⟨"setup", some "holdconn"⟩]] = some "holdconn" := by
@@ -70,40 +70,53 @@ the hypothesis of `roles_complementary_any_offer` is necessary. rustrtc's own We
 one (`firstSetup_localDesc`). -/
 theorem no_setup_no_role (offer : List (List Attr)) (n : Nat) (h : firstSetup offer = none) :
     (exchangeForeignOffer ⟨.webrtc, none⟩ ⟨.webrtc, none⟩ offer n).2.role = none := by
-  simp [exchangeForeignOffer, Ep.setRemote, roleAfterRemote, h]
+  simp [exchangeForeignOffer, Ep.setRemote, roleAfterRemote, roleAfterRemoteFull, h]
 
-/-- **roles_stable**: the role is decided once ("first value wins" on the `dtls_role` watch): for every
-later history of re-negotiations, in either direction, with any section counts, two WebRTC endpoints with
-complementary roles keep exactly those roles. -/
-theorem roles_stable (r : Bool) (h : List (Bool × Nat)) :
-    exchanges ⟨.webrtc, some r⟩ ⟨.webrtc, some (!r)⟩ h = (⟨.webrtc, some r⟩, ⟨.webrtc, some (!r)⟩) := by
-  induction h with
-  | nil => rfl
-  | cons x xs ih =>
-    obtain ⟨d, n⟩ := x
+/-- **roles_fixed_once_started**: once a role is set and the DTLS transport exists, no later remote
+description — any sections, any session-level `a=setup`, any mode — changes it (the guard
+`current_role.is_none() || dtls_transport.is_none()` of the role block). -/
+theorem roles_fixed_once_started (m : Mode) (r : Bool) (sections : List (List Attr)) (sess : Option String) :
+    roleAfterRemoteFull m (some r) true sections sess = some r := by
+  simp [roleAfterRemoteFull]
+
+/-- **roles_follow_latest_offer**: until the DTLS transport exists the role follows the latest description
+(SDP fix "the DTLS role follows a later description until the DTLS transport exists"; before it the first
+value won for good): after every complete exchange, whatever roles earlier exchanges left, the offerer of
+*that* exchange is the client and its answerer the server. -/
+theorem roles_follow_latest_offer (ro ra : Option Bool) (n : Nat) (hn : 0 < n) :
+    exchange ⟨.webrtc, ro⟩ ⟨.webrtc, ra⟩ n = (⟨.webrtc, some true⟩, ⟨.webrtc, some false⟩) :=
+  exchange_any ro ra n hn
+
+/-- **roles_complementary_forever**: from two fresh endpoints, after a first exchange and any further
+history of re-negotiations (either side offering, ≥ 1 section each) before the transport exists, the roles
+are complementary after every exchange. -/
+theorem roles_complementary_forever (x y : Ep) (hx : x.mode = .webrtc) (hy : y.mode = .webrtc)
+    (h : List (Bool × Nat)) (hne : h ≠ []) (hpos : ∀ e ∈ h, 0 < e.2) :
+    ∃ r : Bool, exchanges x y h = (⟨.webrtc, some r⟩, ⟨.webrtc, some (!r)⟩) := by
+  induction h generalizing x y with
+  | nil => exact absurd rfl hne
+  | cons e rest ih =>
+    obtain ⟨d, n⟩ := e
+    have hn : 0 < n := hpos (d, n) (by simp)
+    obtain ⟨mx, rx⟩ := x
+    obtain ⟨my, ry⟩ := y
+    simp only at hx hy
+    subst hx; subst hy
     cases d
-    · have := exchange_set (!r) n
-      simp only [Bool.not_not] at this
-      simp [exchanges, this, ih]
-    · simp [exchanges, exchange_set r n, ih]
-
-/-- **roles_complementary_forever**: from two fresh endpoints, after a first exchange (either side
-offering, ≥ 1 section) and any further history, the roles are complementary. -/
-theorem roles_complementary_forever (xOffers : Bool) (n : Nat) (hn : 0 < n) (h : List (Bool × Nat)) :
-    ∃ r : Bool, exchanges ⟨.webrtc, none⟩ ⟨.webrtc, none⟩ ((xOffers, n) :: h) =
-      (⟨.webrtc, some r⟩, ⟨.webrtc, some (!r)⟩) := by
-  cases xOffers
-  · refine ⟨false, ?_⟩
-    simp only [exchanges, exchange_fresh n hn]
-    exact roles_stable false h
-  · refine ⟨true, ?_⟩
-    simp only [exchanges, exchange_fresh n hn, if_true]
-    exact roles_stable true h
+    · -- y offers
+      simp only [exchanges, exchange_any ry rx n hn]
+      by_cases hr : rest = []
+      · subst hr; exact ⟨false, by simp [exchanges]⟩
+      · simpa using ih ⟨.webrtc, some false⟩ ⟨.webrtc, some true⟩ rfl rfl hr (fun e he => hpos e (by simp [he]))
+    · simp only [exchanges, exchange_any rx ry n hn, if_true]
+      by_cases hr : rest = []
+      · subst hr; exact ⟨true, by simp [exchanges]⟩
+      · simpa using ih ⟨.webrtc, some true⟩ ⟨.webrtc, some false⟩ rfl rfl hr (fun e he => hpos e (by simp [he]))
 
 /-- the direct modes never consult `a=setup`: both ends are `Some(true)` and no DTLS runs -/
 theorem direct_modes_role (m : Mode) (hm : m ≠ .webrtc) (n : Nat) :
     exchange ⟨m, none⟩ ⟨m, none⟩ n = (⟨m, some true⟩, ⟨m, some true⟩) := by
-  cases m <;> simp_all [exchange, Ep.setRemote, roleAfterRemote]
+  cases m <;> simp_all [exchange, Ep.setRemote, roleAfterRemote, roleAfterRemoteFull]
 
 /-! ### data-channel stream ids -/
 
